@@ -828,10 +828,10 @@ def sliceDocs (bs : List Nat) : List JVal × Verdict :=
   match h : skipWs bs with
   | [] => ([], .ok)
   | b :: r =>
-    have hle : (b :: r).length ≤ bs.length := h ▸ skipWs_length_le bs
+    have _hle : (b :: r).length ≤ bs.length := h ▸ skipWs_length_le bs
     match parseValueS depthLimit (b :: r) with
     | .error e => ([], .err e)
-    | .ok (v, ⟨rest, hr⟩) =>
+    | .ok (v, ⟨rest, _hr⟩) =>
       if isSelfDelim b || endOk rest then
         let (ds, verdict) := sliceDocs rest
         (v :: ds, verdict)
@@ -849,10 +849,10 @@ def readerLoop (bs : List Nat) : List JVal × Verdict :=
   match h : skipWs bs with
   | [] => ([], .ok)
   | b :: r =>
-    have hle : (b :: r).length ≤ bs.length := h ▸ skipWs_length_le bs
+    have _hle : (b :: r).length ≤ bs.length := h ▸ skipWs_length_le bs
     match parseValueS depthLimit (b :: r) with
     | .error e => ([], .err e)
-    | .ok (v, ⟨rest, hr⟩) =>
+    | .ok (v, ⟨rest, _hr⟩) =>
       let (ds, verdict) := readerLoop rest
       (v :: ds, verdict)
 termination_by bs.length
@@ -865,10 +865,10 @@ def hasUnseparatedScalar (bs : List Nat) : Bool :=
   match h : skipWs bs with
   | [] => false
   | b :: r =>
-    have hle : (b :: r).length ≤ bs.length := h ▸ skipWs_length_le bs
+    have _hle : (b :: r).length ≤ bs.length := h ▸ skipWs_length_le bs
     match parseValueS depthLimit (b :: r) with
     | .error _ => false
-    | .ok (_, ⟨rest, hr⟩) =>
+    | .ok (_, ⟨rest, _hr⟩) =>
       (!isSelfDelim b && !endOk rest) || hasUnseparatedScalar rest
 termination_by bs.length
 decreasing_by omega
